@@ -8,6 +8,7 @@ MODULES = [
     "specs.xpath",
     "specs.typed",
     "specs.row",
+    "specs.table_rows",
     "specs.toc",
     "specs.attrs",
     "specs.purity",
